@@ -70,8 +70,17 @@ def wrapper_function(repo):
                     cands.append(a.args[0].id)
     names = set(cands)
     if len(names) != 1:
-        raise AnalysisError('cannot identify the printer wrapper: register_pretty registers '
-                            'through %s' % (sorted(names) or 'no partial(wrapper, fn)'))
+        # fall back to the base dispatch: _BASE_DISPATCH = partial(X, base_printer)
+        cands = []
+        for name, vals in m.assigns.items():
+            v = vals[-1]
+            if isinstance(v, ast.Call) and call_name(v) == 'partial' and len(v.args) == 2 \
+                    and isinstance(v.args[0], ast.Name) and 'DISPATCH' in name.upper():
+                cands.append(v.args[0].id)
+        names = set(cands)
+    if len(names) != 1:
+        raise AnalysisError('cannot identify the printer wrapper: neither register_pretty nor the base '
+                            'dispatch goes through partial(wrapper, fn) (found %s)' % sorted(names))
     r = repo.resolve(m, cands[0])
     if not r or r[0] != 'func':
         raise AnalysisError('printer wrapper %s is not a package function' % cands[0])
